@@ -47,17 +47,17 @@ def optStr {α} (io : ItemIO α) : Option α → String
   | some x => io.render x
 
 /-- `S n min max retained est I item:weight ...` -/
-def obsSketch {α} (io : ItemIO α) (s : Sketch α) : String :=
+def obsSketch {α} (fl : Flags) (io : ItemIO α) (s : Sketch α) : String :=
   s!"S {s.n} {optStr io s.minItem} {optStr io s.maxItem} {s.retained} {boolStr s.isEstimationMode} I" ++
-    String.join (s.iter.map (fun p => s!" {io.render p.1}:{p.2}"))
+    String.join ((s.iterF fl).map (fun p => s!" {io.render p.1}:{p.2}"))
 
 def obsView {α} (io : ItemIO α) (v : SortedView.View α) : String :=
   s!"V {v.total}" ++ String.join (v.ents.map (fun p => s!" {io.render p.1}:{p.2}"))
 
-def obsObj : Obj → String
-  | .i s => obsSketch intIO s
-  | .d s => obsSketch f64IO s
-  | .s s => obsSketch strIO s
+def obsObj (fl : Flags) : Obj → String
+  | .i s => obsSketch fl intIO s
+  | .d s => obsSketch fl f64IO s
+  | .s s => obsSketch fl strIO s
 
 def floatsStr (tag : String) (l : List Float) : String := tag ++ String.join (l.map (fun x => " " ++ hexF x))
 
@@ -68,7 +68,7 @@ def parseItems {α} (io : ItemIO α) : List String → Option (List α)
     | _, _ => none
 
 /-- queries on one sketch; returns the (possibly level-0-sorted) sketch and the observation -/
-def queryG {α} (E : ErrConsts) (io : ItemIO α) (s : Sketch α) (q : List String) : Sketch α × String :=
+def queryG {α} (E : ErrConsts) (fl : Flags) (io : ItemIO α) (s : Sketch α) (q : List String) : Sketch α × String :=
   let sorted := if s.n == 0 then s else sortLevelZero io.cmp s    -- queries throw on an empty sketch before touching it
   match q with
   | ["view"] => ((getSortedView io.cmp s).1, obsView io (getSortedView io.cmp s).2)
@@ -80,9 +80,9 @@ def queryG {α} (E : ErrConsts) (io : ItemIO α) (s : Sketch α) (q : List Strin
     | none => (s, "bad-op")
   | ["quant", hx, incl] =>
     match parseHex hx with
-    | some b => match getQuantile io.cmp s (Float.ofBits (UInt64.ofNat b)) (incl == "1") with
+    | some b => match getQuantileF fl io.cmp s (Float.ofBits (UInt64.ofNat b)) (incl == "1") with
       | some x => (sorted, "Q " ++ io.render x)
-      | none => (if s.n == 0 || (Float.ofBits (UInt64.ofNat b)) < 0.0 || (Float.ofBits (UInt64.ofNat b)) > 1.0 then s else sorted, "throw")
+      | none => (s, "throw")          -- both checks throw before setup_sorted_view
     | none => (s, "bad-op")
   | "cdf" :: incl :: sps =>
     match parseItems io sps with
@@ -99,11 +99,11 @@ def queryG {α} (E : ErrConsts) (io : ItemIO α) (s : Sketch α) (q : List Strin
   | ["err", pmf] => (s, "E " ++ hexF (normalizedRankError E s.minK (pmf == "1")))
   | _ => (s, "bad-op")
 
-def queryObj (E : ErrConsts) (o : Obj) (q : List String) : Obj × String :=
+def queryObj (E : ErrConsts) (fl : Flags) (o : Obj) (q : List String) : Obj × String :=
   match o with
-  | .i s => let r := queryG E intIO s q; (.i r.1, r.2)
-  | .d s => let r := queryG E f64IO s q; (.d r.1, r.2)
-  | .s s => let r := queryG E strIO s q; (.s r.1, r.2)
+  | .i s => let r := queryG E fl intIO s q; (.i r.1, r.2)
+  | .d s => let r := queryG E fl f64IO s q; (.d r.1, r.2)
+  | .s s => let r := queryG E fl strIO s q; (.s r.1, r.2)
 
 def updG {α} (P : Params) (io : ItemIO α) (s : Sketch α) (lit : String) : Option (CT (Sketch α)) :=
   (io.parse lit).map (fun x => updateT P io.cmp s x)
@@ -114,10 +114,10 @@ def updManyT {α} (P : Params) (c : Cmp α) : Sketch α → List α → CT (Sket
   | s, x :: t => CT.bind (updateT P c s x) (fun s' => updManyT P c s' t)
 
 /-- `assert_correct_total_weight` at the end of merge: a failing assertion is the observation `throw` -/
-def mergeObs {α} (io : ItemIO α) (s : Sketch α) : String := if s.weightOk then obsSketch io s else "throw"
+def mergeObs {α} (fl : Flags) (io : ItemIO α) (s : Sketch α) : String := if s.weightOk then obsSketch fl io s else "throw"
 
 /-- state-changing operations as coin trees over the object table -/
-def opT (P : Params) (objs : List (Nat × Obj)) (w : List String) : CT (List (Nat × Obj) × String) :=
+def opT (P : Params) (fl : Flags) (objs : List (Nat × Obj)) (w : List String) : CT (List (Nat × Obj) × String) :=
   let get := fun (id : Nat) => (objs.find? (·.1 == id)).map (·.2)
   match w with
   | ["new", id, ty, k] =>
@@ -125,9 +125,9 @@ def opT (P : Params) (objs : List (Nat × Obj)) (w : List String) : CT (List (Na
     | some id, some k =>
       if !validK P k then CT.ret (objs, "throw") else
       match ty with
-      | "i" => let o := Obj.i (init k); CT.ret (putObj objs id o, obsObj o)
-      | "d" => let o := Obj.d (init k); CT.ret (putObj objs id o, obsObj o)
-      | "s" => let o := Obj.s (init k); CT.ret (putObj objs id o, obsObj o)
+      | "i" => let o := Obj.i (init k); CT.ret (putObj objs id o, obsObj fl o)
+      | "d" => let o := Obj.d (init k); CT.ret (putObj objs id o, obsObj fl o)
+      | "s" => let o := Obj.s (init k); CT.ret (putObj objs id o, obsObj fl o)
       | _ => CT.ret (objs, "bad-op")
     | _, _ => CT.ret (objs, "bad-op")
   | ["upd", id, lit] =>
@@ -135,13 +135,13 @@ def opT (P : Params) (objs : List (Nat × Obj)) (w : List String) : CT (List (Na
     | some id =>
       match get id with
       | some (.i s) => match updG P intIO s lit with
-        | some t => CT.map (fun s' => (putObj objs id (.i s'), obsSketch intIO s')) t
+        | some t => CT.map (fun s' => (putObj objs id (.i s'), obsSketch fl intIO s')) t
         | none => CT.ret (objs, "bad-op")
       | some (.d s) => match updG P f64IO s lit with
-        | some t => CT.map (fun s' => (putObj objs id (.d s'), obsSketch f64IO s')) t
+        | some t => CT.map (fun s' => (putObj objs id (.d s'), obsSketch fl f64IO s')) t
         | none => CT.ret (objs, "bad-op")
       | some (.s s) => match updG P strIO s lit with
-        | some t => CT.map (fun s' => (putObj objs id (.s s'), obsSketch strIO s')) t
+        | some t => CT.map (fun s' => (putObj objs id (.s s'), obsSketch fl strIO s')) t
         | none => CT.ret (objs, "bad-op")
       | none => CT.ret (objs, "bad-op")
     | none => CT.ret (objs, "bad-op")
@@ -150,9 +150,9 @@ def opT (P : Params) (objs : List (Nat × Obj)) (w : List String) : CT (List (Na
     | some id, some cnt, some st, some sd, some md =>
       if md == 0 then CT.ret (objs, "bad-op") else
       match get id with
-      | some (.i s) => CT.map (fun s' => (putObj objs id (.i s'), obsSketch intIO s'))
+      | some (.i s) => CT.map (fun s' => (putObj objs id (.i s'), obsSketch fl intIO s'))
           (updManyT P intIO.cmp s ((List.range cnt).map (fun j => (((st + j * sd) % md : Nat) : Int))))
-      | some (.d s) => CT.map (fun s' => (putObj objs id (.d s'), obsSketch f64IO s'))
+      | some (.d s) => CT.map (fun s' => (putObj objs id (.d s'), obsSketch fl f64IO s'))
           (updManyT P f64IO.cmp s ((List.range cnt).map (fun j => ((st + j * sd) % md).toFloat.toBits)))
       | _ => CT.ret (objs, "bad-op")
     | _, _, _, _, _ => CT.ret (objs, "bad-op")
@@ -160,16 +160,16 @@ def opT (P : Params) (objs : List (Nat × Obj)) (w : List String) : CT (List (Na
     match i.toNat?, j.toNat? with
     | some i, some j =>
       match get i, get j with
-      | some (.i a), some (.i b) => CT.map (fun s' => (putObj objs i (.i s'), mergeObs intIO s')) (mergeT P intIO.cmp a b)
-      | some (.d a), some (.d b) => CT.map (fun s' => (putObj objs i (.d s'), mergeObs f64IO s')) (mergeT P f64IO.cmp a b)
-      | some (.s a), some (.s b) => CT.map (fun s' => (putObj objs i (.s s'), mergeObs strIO s')) (mergeT P strIO.cmp a b)
+      | some (.i a), some (.i b) => CT.map (fun s' => (putObj objs i (.i s'), mergeObs fl intIO s')) (mergeT P intIO.cmp a b)
+      | some (.d a), some (.d b) => CT.map (fun s' => (putObj objs i (.d s'), mergeObs fl f64IO s')) (mergeT P f64IO.cmp a b)
+      | some (.s a), some (.s b) => CT.map (fun s' => (putObj objs i (.s s'), mergeObs fl strIO s')) (mergeT P strIO.cmp a b)
       | _, _ => CT.ret (objs, "bad-op")
     | _, _ => CT.ret (objs, "bad-op")
   | ["copy", i, j] =>
     match i.toNat?, j.toNat? with
     | some i, some j =>
       match get i with
-      | some o => CT.ret (putObj objs j o, obsObj o)
+      | some o => CT.ret (putObj objs j o, obsObj fl o)
       | none => CT.ret (objs, "bad-op")
     | _, _ => CT.ret (objs, "bad-op")
   | _ => CT.ret (objs, "bad-op")
@@ -181,9 +181,9 @@ def insertStr (x : String) : List String → List String
   | y :: t => if x ≤ y then x :: y :: t else y :: insertStr x t
 
 /-- the whole recorded history as one coin tree -/
-def histT (P : Params) : List (List String) → List (Nat × Obj) → CT (List (Nat × Obj))
+def histT (P : Params) (fl : Flags) : List (List String) → List (Nat × Obj) → CT (List (Nat × Obj))
   | [], objs => CT.ret objs
-  | w :: t, objs => CT.bind (opT P objs w) (fun r => histT P t r.1)
+  | w :: t, objs => CT.bind (opT P fl objs w) (fun r => histT P fl t r.1)
 
 def leafViews (objs : List (Nat × Obj)) : String :=
   let ids := sortNat (objs.map (·.1))
@@ -194,8 +194,8 @@ def leafViews (objs : List (Nat × Obj)) : String :=
     | none => ""))
 
 /-- `tend`: every coin vector; leaves as a sorted multiset (coin labels are not printed) -/
-def treeObs (P : Params) (ops : List (List String)) (maxLeaves : Nat) : String :=
-  let t := histT P ops []
+def treeObs (P : Params) (fl : Flags) (ops : List (List String)) (maxLeaves : Nat) : String :=
+  let t := histT P fl ops []
   if CT.leaves t > maxLeaves then s!"T overflow" else
   let ls := (CT.leafList t).map (fun p => s!"L {p.1.length}" ++ leafViews p.2)
   let sorted := (ls.toArray.qsort (· < ·)).toList
@@ -204,11 +204,11 @@ def treeObs (P : Params) (ops : List (List String)) (maxLeaves : Nat) : String :
 def capsLine (P : Params) (k L : Nat) : String :=
   s!"K {computeTotalCapacity P k L}" ++ String.join ((List.range L).map (fun h => s!" {levelCapacity P k L h}"))
 
-def stepLine (P : Params) (E : ErrConsts) (dflt : String) (st : St) (w : List String) : St × String :=
+def stepLine (P : Params) (E : ErrConsts) (fl : Flags) (dflt : String) (st : St) (w : List String) : St × String :=
   match st.recording, w with
   | some r, "tend" :: rest =>
     let maxLeaves := (rest.head?.bind String.toNat?).getD 4096
-    ({ st with recording := none }, treeObs P r.reverse maxLeaves)
+    ({ st with recording := none }, treeObs P fl r.reverse maxLeaves)
   | some r, _ => ({ st with recording := some (w :: r) }, "rec")
   | none, ["tbegin"] => ({ st with recording := some [] }, "rec")
   | none, ["coins", bits] => ({ st with coins := { bits := parseBits bits, used := st.coins.used } }, "ok")
@@ -220,11 +220,11 @@ def stepLine (P : Params) (E : ErrConsts) (dflt : String) (st : St) (w : List St
   | none, "q" :: id :: q =>
     match id.toNat? with
     | some id => match st.get id with
-      | some o => let r := queryObj E o q; ({ st with objs := putObj st.objs id r.1 }, r.2)
+      | some o => let r := queryObj E fl o q; ({ st with objs := putObj st.objs id r.1 }, r.2)
       | none => (st, "bad-op")
     | none => (st, "bad-op")
   | none, _ =>
-    let r := (opT P st.objs w).run st.coins
+    let r := (opT P fl st.objs w).run st.coins
     ({ st with objs := r.1.1, coins := r.2 }, if r.1.2.startsWith "S " then r.1.2 ++ s!" F {r.2.used}" else r.1.2)
 
 end DS.Kll
